@@ -86,4 +86,4 @@ Definition is_master_case (ops : list (list Z)) : bool :=
   end.
 
 Definition run_any_case (ops : list (list Z)) : list (list Z) :=
-  if is_master_case ops then mrun_case ops else CuratorWire.run_case ops.
+  if is_master_case ops then mrun_case ops else curator_run_case ops.
